@@ -10,3 +10,13 @@ claim("C11", "other",
   "Exhaustive, exact decision of the table clause (every range entry listed, at one position, families well-shaped, ascending in natural version order, complete for every covered signature) on the constant tables extracted from the compiled getters on every run; the code clause is decided by structural rules. Not a behavioural test: nothing is executed.",
   "Trusts go/ssa lowering of composite literals and the id-shape grammar prefix-version[-variant] stated in DESIGN.md C11; whether natural version order is the legally meaningful one is outside the property.",
   "constant-table extraction from SSA + exhaustive table lint", "DESIGN.md section 3 C11")
+
+claim("C12", "translation_validation",
+  "The three generated Go files are validated byte for byte against the translation of cmd/licenses.json and cmd/exceptions.json under the generator's own template, which is extracted statically from the SSA of package cmd on every run; the compiled tables are compared with the JSON projections; all ~740 ids are linted for disjointness, fold-uniqueness and scannability. A stale table, a hand edit, a flipped filter, a changed header or output path all differ.",
+  "Trusts go/ssa, the checker's mirror of encoding/json field matching, and that the generator writes only through os.WriteFile with constant paths (anything else is reported undecided, i.e. as a violation).",
+  "static template extraction + translation validation against JSON data", "DESIGN.md section 3 C12")
+
+claim("C13", "proof",
+  "Sound whole-program effect analysis over every function reachable from the exported API: the property holds because of what the code does not contain (global state, writes to argument memory, output, nondeterministic constructs, shared results), which a static rule shows for all inputs, histories and schedules. obligations == discharged.",
+  "Trusted base: go/ssa + call-graph soundness without reflect/unsafe/cgo (absence checked), the stdlib classification table in analyzer/effects.go, immutability/concurrency-safety of the stdlib objects used, the Go memory model.",
+  "effect / taint / freshness analysis over the call graph", "DESIGN.md section 3 C13")
